@@ -314,3 +314,61 @@ def check(run, prog, tier):
         run.ob("C13-e", "bulk-copy:%d" % j, full, "bulk copy at line %s is taken only when ip->state == TS_DATA (no pending flags)" % n.get("l") if full else
                "bulk copy of input at line %s is guarded by %s: a CR pending from the previous read (TS_CR_SEEN, above the mask) is ignored, so the line split depends on where the read ended" % (n.get("l"), "the masked state only" if masked else "no test of the state word"),
                cc.file, n.get("l"), "copy_chars", what="copy_chars copies input bytes past the telnet state machine without requiring the complete state word to be TS_DATA")
+
+    # ---- C13-f backward steps of an output cursor are bound-checked one by one
+    run.rule("C13-f", "telnet_neg (backspace/delete editing): every decrement of the output cursor is reached only through a comparison of the cursor with the saved start of the buffer taken since the previous decrement (no path from one decrement, or from the entry, to a decrement without `to > first`)", 1)
+    nf = 0
+    for f in [prog.func("telnet_neg")] + [g for g in prog.unit("src/comm.c").funcs.values() if g.name != "telnet_neg" and g.file.endswith("comm.c")]:
+        if f is None:
+            continue
+        # cursor: a char* param/local that is decremented; start: a local initialised/assigned from it once
+        decs = []
+        for b, i, n in f.nodes():
+            t = None
+            if n.get("k") == "Un" and n.get("op") == "--":
+                t = strip(n["e"])
+            elif n.get("k") == "Asg" and n.get("op") == "-=":
+                t = strip(n["L"])
+            if t is not None and t.get("k") == "Ref" and t.get("d") in ("param", "local") and (t.get("t") or "").replace("unsigned ", "") in ("char *",):
+                decs.append((b, i, n, t))
+        if not decs:
+            continue
+        for cur_id in sorted({t.get("id") for b, i, n, t in decs}):
+            cname = [t.get("n") for b, i, n, t in decs if t.get("id") == cur_id][0]
+            starts = [strip(n2["L"]).get("id") for b2, i2, n2 in f.nodes() if n2.get("k") == "Asg" and n2.get("op") == "=" and strip(n2["R"]).get("k") == "Ref" and strip(n2["R"]).get("id") == cur_id and strip(n2["L"]).get("k") == "Ref"]
+            starts += [v.get("id") for b2, i2, n2 in f.nodes() if n2.get("k") == "Decl" for v in n2.get("vars", []) if "init" in v and strip(v["init"]).get("k") == "Ref" and strip(v["init"]).get("id") == cur_id]
+            if not starts:
+                continue
+            nf += 1
+            run.saw(f)
+            # edges on which cursor > start holds
+            good_edges = set()
+            for bid in f.reachable():
+                c = f.branch_cond(bid)
+                if c is None:
+                    continue
+                blk = f.blocks[bid]
+                for idx, truth in ((0, True), (1, False)):
+                    op, l, r = atom_of(c, truth)
+                    l0, r0 = strip(l), strip(r) if r is not None else {}
+                    if op in (">", "<", ">=", "<=", "!=") and r is not None:
+                        if l0.get("id") == cur_id and r0.get("id") in starts and op in (">", "!="):
+                            good_edges.add((bid, blk.succ[idx]))
+                        if r0.get("id") == cur_id and l0.get("id") in starts and op in ("<", "!="):
+                            good_edges.add((bid, blk.succ[idx]))
+            sites = [(b, i, n) for b, i, n, t in decs if t.get("id") == cur_id]
+            bad = None
+            for b, i, n in sites:
+                # from the entry
+                srcs = [f.entry] + [s for b2, i2, n2 in sites for s in f.blocks[b2.id].live_succ()]
+                # a path to this decrement that takes no good edge
+                p = f.reach_avoiding(srcs, lambda blk, t=b.id: blk.id == t, avoid_edges=good_edges)
+                # same-block second decrement
+                same = [x for x in sites if x[0].id == b.id and x[1] < i]
+                if p is not None or same:
+                    bad = (n.get("l"), p)
+                    break
+            run.ob("C13-f", "cursor-decrement:%s:%s" % (f.name, cname), bad is None, "every `%s` decrement follows a fresh `%s > start` test" % (cname, cname) if bad is None else
+                   "the decrement of `%s` at line %s is reachable (path %s) without a new comparison with the buffer start: a run of deletable bytes walks the cursor below the buffer" % (cname, bad[0], (bad[1] or [])[:8]),
+                   f.file, sites[0][2].get("l"), f.name, what="%s moves its output cursor `%s` backwards without re-checking the start of the buffer each time" % (f.name, cname))
+    run.need(nf >= 1, "cursor-decrementing editors (found %d)" % nf)
